@@ -288,7 +288,16 @@ func ExploreScenario(seed int64, p Profile, x *Explorer) {
 		}
 		ref := func(n int) absval.V { return absval.V{K: 'r', N: n} }
 		prim := func() absval.V { return absval.V{K: 'p', N: x.fresh()} }
-		switch x.R.Intn(6) {
+		shape := x.R.Intn(8)
+		switch shape {
+		case 7: // a model gains two references in one event (one of them slow); a collection then gains a reference to the loaded one
+			x.Truth[name(0)] = &gw.Content{L: absval.List{prim()}}
+			x.Truth[name(1)] = mk(prim())
+			x.Truth[name(2)] = mk(prim())
+		case 6: // a resource with a slow child is handed over by the resource response of a call
+			x.Truth[name(0)] = mk(prim())
+			x.Truth[name(1)] = mk(prim())
+			x.Truth[name(2)] = mk(ref(4), prim())
 		case 5: // a collection that gains references to a resource whose own child is still loading
 			x.Truth[name(0)] = &gw.Content{L: absval.List{prim()}}
 			x.Truth[name(1)] = mk(ref(3))
@@ -322,6 +331,64 @@ func ExploreScenario(seed int64, p Profile, x *Explorer) {
 		}
 		direct := map[string]int{}
 		steps := 6 + x.R.Intn(6)
+		if shape == 6 {
+			// call (or auth) on resource 1 answered with a resource response naming 2; 2 loads, its child 4 is slow; 2 changes while the
+			// request waits: the events held for 2 may only follow the response that hands it over
+			x.slowR, x.slowTyp = 4, "get"
+			x.pol[" "+name(1)] = accessPolicy{call: "*"}
+			x.sendFrame(A, x.R.Pick("call", "auth"), 1, "res2")
+			x.internalSteps(3 + x.R.Intn(8))
+			for k := 1 + x.R.Intn(3); k > 0; k-- {
+				if x.Run.W.MQ.HasSub("event." + name(2)) {
+					if x.R.Intn(2) == 0 {
+						x.changeEvent(2)
+					} else {
+						x.customEvent(2)
+					}
+				}
+				x.internalSteps(x.R.Intn(4))
+			}
+			x.slowR = -1
+			x.internalSteps(x.R.Intn(8))
+			steps = 2 + x.R.Intn(4)
+		}
+		if shape == 7 {
+			// 0 (collection) and 1 (model) are held; 1 gains references to 3 and 4 in one event and waits for 4; 0 then gains a
+			// reference to 3, which is loaded but not yet sent; 0 keeps changing afterwards
+			x.slowR, x.slowTyp = 4, "get"
+			x.sendFrame(A, "subscribe", 0, "")
+			direct[A.Label+" "+name(0)]++
+			x.sendFrame(A, "subscribe", 1, "")
+			direct[A.Label+" "+name(1)]++
+			x.settle()
+			ch := absval.KV{0: ref(3), 1: ref(4), 9: prim()}
+			for k2, v := range ch {
+				x.Truth[name(1)].M[k2] = v
+			}
+			x.Run.Do(gw.Action{A: "event", Subj: "event." + name(1), Ev: "change", Text: `{"values":` + ch.JSON() + `}`, Abs: "1\tchange\t" + absKV(ch)})
+			x.internalSteps(3 + x.R.Intn(6))
+			addTo0 := func(v absval.V) {
+				cont := x.Truth[name(0)]
+				idx := x.R.Intn(len(cont.L) + 1)
+				cont.L = append(cont.L[:idx:idx], append(absval.List{v}, cont.L[idx:]...)...)
+				x.Run.Do(gw.Action{A: "event", Subj: "event." + name(0), Ev: "add", Text: `{"idx":` + strconv.Itoa(idx) + `,"value":` + v.JSON() + `}`,
+					Abs: "0\tadd\t" + strconv.Itoa(idx) + "\t" + v.String()})
+			}
+			addTo0(ref(3))
+			x.internalSteps(x.R.Intn(5))
+			for k := 1 + x.R.Intn(3); k > 0; k-- {
+				if x.R.Intn(2) == 0 {
+					addTo0(prim())
+				} else {
+					x.customEvent(0)
+				}
+				x.internalSteps(x.R.Intn(4))
+			}
+			if x.R.Intn(2) == 0 {
+				x.slowR = -1
+			}
+			steps = 2 + x.R.Intn(4)
+		}
 		if c0 := x.Truth[name(0)]; !c0.IsModel && len(c0.L) == 1 {
 			// the collection gains a reference to a resource whose own child is still loading, and that resource changes
 			// while it waits: the events held for it may only follow the add event that hands it over
@@ -433,7 +500,12 @@ func ExploreScenario(seed int64, p Profile, x *Explorer) {
 		}
 		x.settle()
 		for k := 1 + x.R.Intn(4); k > 0; k-- {
-			x.sendFrame(A, x.R.Pick("subscribe", "subscribe", "get"), X, "")
+			if x.R.Intn(3) == 0 {
+				// a call / auth answered with a resource response naming X: one more direct subscription, or none past the limit
+				x.sendFrame(A, x.R.Pick("call", "auth"), x.R.Intn(p.Resources), "res0")
+			} else {
+				x.sendFrame(A, x.R.Pick("subscribe", "subscribe", "get"), X, "")
+			}
 			x.between()
 		}
 		x.settle()
